@@ -781,3 +781,73 @@ func valueFuncs(fn *ssa.Function) []*ssa.Function {
 	})
 	return out
 }
+
+// throughCell resolves field f of a struct held in a local cell (a by-value
+// options struct that is filled in and handed on) to the value stored into
+// that field: the one store to that field in the cell's function (executed
+// before instruction at on every path, when in at's function), else the same
+// field of the one value the whole cell is initialised from — a by-value
+// parameter, replaced by the caller's argument through env — and so on; also
+// a field of a struct literal. Anything else is returned unchanged.
+func (c *Ctx) throughCell(x *X, at ssa.Instruction, env map[ssa.Value]*X) *X {
+	for round := 0; round < 6; round++ {
+		y := strip(x)
+		if y == nil || y.Op != "field" || len(y.Args) != 1 {
+			return x
+		}
+		base := strip(y.Args[0])
+		if base == nil {
+			return x
+		}
+		if base.Op == "complit" {
+			found := false
+			for _, fi := range base.Args {
+				if fi.Name == y.Name && len(fi.Args) == 1 {
+					x, found = fi.Args[0], true
+				}
+			}
+			if !found {
+				return x
+			}
+			continue
+		}
+		al := base.Cell
+		if al == nil {
+			al, _ = base.V.(*ssa.Alloc)
+		}
+		if al == nil || al.Referrers() == nil {
+			return x
+		}
+		st, ok := deref(al.Type()).Underlying().(*types.Struct)
+		if !ok {
+			return x
+		}
+		var stores, whole []*ssa.Store
+		for _, r := range *al.Referrers() {
+			if s, ok := r.(*ssa.Store); ok && s.Addr == ssa.Value(al) {
+				whole = append(whole, s)
+			}
+			fa, ok := r.(*ssa.FieldAddr)
+			if !ok || canonField(st.Field(fa.Field)) != y.Name || fa.Referrers() == nil {
+				continue
+			}
+			for _, u := range *fa.Referrers() {
+				if s, ok := u.(*ssa.Store); ok && s.Addr == ssa.Value(fa) {
+					stores = append(stores, s)
+				}
+			}
+		}
+		switch {
+		case len(stores) == 1:
+			if at != nil && at.Parent() == stores[0].Parent() && !Precedes(stores[0], at) {
+				return x
+			}
+			x = subst(c.E(stores[0].Val), env)
+		case len(stores) == 0 && len(whole) == 1:
+			x = &X{Op: "field", Name: y.Name, Args: []*X{subst(c.E(whole[0].Val), env)}}
+		default:
+			return x
+		}
+	}
+	return x
+}
